@@ -1,6 +1,6 @@
 (* d_doc.ml — C03: parser of the doc token format (tools/checks/c03.py writes it) into the extracted
    Spec/Doc.v `doc`, and the operations of the check:
-     c03_doc <doc tokens>                 -> ok <canonical 0/1> <hex write d> <hex ref_html d> <model: 1 | 0 | panic...>
+     c03_doc <doc tokens>                 -> ok <canonical 0/1> <hex write d> <hex ref_html d> <model: 1 | 0 | panic...> <wf_doc 0/1>
                                              (last field: html std_opts (tree_of d) = Ok (ref_html d), evaluated)
      c03_tree <doc tokens> | <tree tokens> -> ok <0/1>   norm (tree_of d) = norm (parsed tree)
      c03_tree_dump <doc tokens>            -> ok <tree tokens of norm (tree_of d)>
@@ -161,7 +161,7 @@ let () =
           | M.Ok x -> if x = h then "1" else "0:" ^ hex_of_bytes x
           | M.Panic s -> "panic:" ^ ocaml_string_of_coq s
           | M.OutOfFuel -> "fuel") in
-      Printf.sprintf "ok %s %s %s %s" (b01 c) (hex_of_bytes w) (hex_of_bytes h) m);
+      Printf.sprintf "ok %s %s %s %s %s" (b01 c) (hex_of_bytes w) (hex_of_bytes h) m (b01 (M.wf_doc d)));
   register "c03_tree" (fun a ->
       let (dt, tt) = split_bar [] a in
       let (d, _) = parse_doc dt in
